@@ -62,11 +62,14 @@ func init() {
 				ast.MakeCallGraph("", ast.Call)
 			}
 			var p syntax.Parser
-			if _, ferr := p.FormatSrcBytes([]byte(mf.Files[mf.Main]), mainPath, true, []string{dir}); ferr != nil {
+			if _, ferr := p.FormatSrcBytes([]byte(mf.Files[mf.Main]), mainPath, false, nil); ferr != nil {
 				r.FmtErr = ferr.Error()
 			} else {
 				r.FmtOK = true
 			}
+			// include fixing (mro format --includes): only a crash is a verdict
+			// here, its messages concern files, not source positions
+			p.FormatSrcBytes([]byte(mf.Files[mf.Main]), mainPath, true, []string{dir})
 		} else if kind == 'e' {
 			var p syntax.Parser
 			v, err := p.ParseValExp(text)
